@@ -169,6 +169,20 @@ var c14Entries = map[string]func(c *WCase, res *WResult){
 		res.Err = errS(err)
 		res.Val = fmt.Sprint(len(g))
 	},
+	"pem.ReadKeyFromFile+ReadCertFromFile": func(c *WCase, res *WResult) {
+		f, err := os.CreateTemp("", "vcheck-pem-")
+		if err != nil {
+			res.Err = err.Error()
+			return
+		}
+		defer os.Remove(f.Name())
+		f.Write(c.In)
+		f.Close()
+		_, e1 := util.ReadKeyFromFile(f.Name())
+		_, e2 := util.ReadCertFromFile(f.Name())
+		_, e3 := util.ReadKeyFromFile(f.Name() + ".absent")
+		res.Val = fmt.Sprint(e1 != nil, e2 != nil, e3 != nil)
+	},
 	"pem.ReadKey": func(c *WCase, res *WResult) { _, err := util.ReadKey(c.In); res.Err = errS(err) },
 	"pem.ReadCert": func(c *WCase, res *WResult) { _, err := util.ReadCert(c.In); res.Err = errS(err) },
 	"guid.StringToGUID": func(c *WCase, res *WResult) {
@@ -699,6 +713,7 @@ func checkC14(r *mon.Run) {
 		}
 		addAll("pem.ReadKey", hs, nil)
 		addAll("pem.ReadCert", hs, nil)
+		addAll("pem.ReadKeyFromFile+ReadCertFromFile", hs, nil)
 	}
 	// GUID text / bytes
 	var gs []hostile
